@@ -115,7 +115,7 @@ func GenCase(mode string) func(t *rapid.T) Case {
 		for i := 0; i < n; i++ {
 			c.Steps = append(c.Steps, genStep(t, len(c.Clients), true))
 		}
-		if mode == "C02" && rapid.IntRange(0, 3).Draw(t, "conc") == 0 {
+		if (mode == "C02" && rapid.IntRange(0, 3).Draw(t, "conc") == 0) || (mode == "C03" && rapid.IntRange(0, 5).Draw(t, "conc3") == 0) {
 			g := rapid.IntRange(4, 12).Draw(t, "goroutines")
 			for i := 0; i < g; i++ {
 				var s []Step
